@@ -650,3 +650,149 @@ def fl(v):
     if math.isinf(v):
         return "inf" if v > 0 else "-inf"
     return v
+
+
+# ---------------------------------------------------------------------------
+# histories of one transform object (explicit enumeration, differential oracle)
+#
+# A transform object is used at configuration X (one call f1), one parameter or constant is then changed by
+# name to reach configuration Y, and f2 is called.  The result of f2 must be, bit for bit, what a fresh object
+# built at Y returns: nothing computed at X (an origin offset, a transformed censor, an intermediate kept from
+# the last forward call) may survive the change.  The same array OBJECT is handed to f1 and f2 (refilled in
+# place when f2 takes other values), f1 may also be made on ANOTHER object of the class (state shared at class
+# or module level).
+
+HIST_X = [-2.0, -0.3, -0.01, -1e-3, 0.0, 1e-3, 0.01, 0.25, 0.5, 0.9, 0.91, 1.0, 1.5, 3.0]
+HIST_CENSORS = [0.0, 0.9]
+HIST_ROUTES = ["attr", "item", "params-item", "values"]
+
+
+def _few(vals, tier, default):
+    vals = list(vals)
+    if tier == "quick" and len(vals) > 5:
+        step = max(1, (len(vals) - 1) // 3)
+        vals = _uniq([vals[0]] + vals[step:-1:step] + [vals[-1]])
+    return _uniq([default] + vals)
+
+
+def history_pairs(cls, tier, seed):
+    """(X vals, Y vals, changed name): default options; X = defaults with <= 1 deviation, Y = X with one
+    coordinate moved to another lattice value"""
+    opts = {o[0]: o[1] for o in OPTS.get(cls, [])}
+    cs = coords(cls, opts, tier, seed)
+    if not cs:
+        return opts, {}, []
+    kinds = {c[0]: c[1] for c in cs}
+    dflt = {c[0]: c[2] for c in cs}
+    lat = {c[0]: _few(c[3], tier, c[2]) for c in cs}
+    xs = [dict(dflt)]
+    for n in lat:
+        for v in lat[n]:
+            if v != dflt[n]:
+                xs.append(dict(dflt, **{n: v}))
+    out = []
+    for X in xs:
+        for n in lat:
+            for v in lat[n]:
+                if v != X[n]:
+                    out.append((X, dict(X, **{n: v}), n))
+    return opts, kinds, out
+
+
+def _hist_set(t, name, value, kind, route):
+    if route == "attr":
+        setattr(t, name, value)
+    elif route == "item":
+        t[name] = value
+    elif route == "params-item":
+        (t.params if kind == "param" else t.constants)[name] = value
+    elif route == "values":
+        vec = t.params if kind == "param" else t.constants
+        vals = np.array(vec.values, dtype=np.float64).copy()
+        vals[[str(n) for n in vec.names].index(name)] = value
+        vec.values = vals
+    else:
+        raise ValueError(route)
+
+
+def _hist_call(t, fname, buf, censor):
+    f = getattr(t, fname)
+    try:
+        with np.errstate(all="ignore"):
+            out = f(buf, censor) if fname == "backward_censored" else f(buf)
+        return ("ok", np.array(out, dtype=np.float64).tobytes())
+    except Exception as e:
+        return ("raise", type(e).__name__)
+
+
+def history_sequence(T, cls, opts, kinds, X, Y, name, f1, f2, route, other, censor, buf=None):
+    """-> (got, want) of f2 on the history object / on a fresh object at Y"""
+    cfgX = {"cls": cls, "opts": opts, "vals": X, "kinds": kinds}
+    cfgY = {"cls": cls, "opts": opts, "vals": Y, "kinds": kinds}
+    xv = np.array(HIST_X)
+    if buf is None:
+        buf = xv.copy()
+    fresh = make(T, cfgY, "kw")
+    want = _hist_call(fresh, f2, xv.copy(), censor)
+    h = make(T, cfgX, "attr")
+    buf[...] = xv
+    if other:
+        _hist_call(make(T, cfgX, "attr"), f1, buf, censor)
+    else:
+        _hist_call(h, f1, buf, censor)
+    _hist_set(h, name, Y[name], kinds[name], route)
+    buf[...] = xv
+    got = _hist_call(h, f2, buf, censor)
+    return got, want
+
+
+def history_cases(cls, tier, seed, funcs):
+    opts, kinds, pairs = history_pairs(cls, tier, seed)
+    for X, Y, name in pairs:
+        for f1 in funcs:
+            for f2 in funcs:
+                for route in HIST_ROUTES:
+                    for other in (False, True):
+                        if other and route != "attr":
+                            continue
+                        censors = HIST_CENSORS if "backward_censored" in (f1, f2) else [0.0]
+                        for censor in censors:
+                            yield opts, kinds, X, Y, name, f1, f2, route, other, censor
+
+
+def run_history(ctx, T, cls, tier, seed, funcs):
+    buf = np.array(HIST_X)
+    n = 0
+    for opts, kinds, X, Y, name, f1, f2, route, other, censor in history_cases(cls, tier, seed, funcs):
+        got, want = history_sequence(T, cls, opts, kinds, X, Y, name, f1, f2, route, other, censor, buf)
+        n += 1
+        ctx.states += 2
+        ctx.transitions += 3
+        ctx.case(want[0] == "ok", outcome=hash((cls, f2, want)))
+        if got != want:
+            k = "%s:history:%s-after-%s:changed=%s(%s)%s" % (cls, f2, f1, name, kinds[name], ":other-object" if other else "")
+            case = {"history": {"cls": cls, "opts": opts, "kinds": kinds, "X": X, "Y": Y, "name": name, "f1": f1, "f2": f2,
+                                "route": route, "other": other, "censor": censor}, "key": k}
+            if got[0] == "ok" and want[0] == "ok":
+                g = np.frombuffer(got[1], dtype=np.float64)
+                w = np.frombuffer(want[1], dtype=np.float64)
+                i = int(np.nonzero(~((g == w) | (np.isnan(g) & np.isnan(w))))[0][0]) if g.shape == w.shape and len(g) else 0
+                det = "at input %r: %r, a fresh object at the same configuration gives %r" % (
+                    HIST_X[i] if i < len(HIST_X) else None, g[i] if len(g) > i else None, w[i] if len(w) > i else None)
+            else:
+                det = "%s, a fresh object %s" % (got[:2] if got[0] == "raise" else "returned", want[:2] if want[0] == "raise" else "returned")
+            ctx.violation(k, case, "%s used at %r (%s%s), then %s set to %r through route %s: %s differs from a fresh object - %s" % (
+                cls, X, f1, " on another object" if other else "", name, Y[name], route, f2, det))
+    ctx.count("history.sequences", n)
+    ctx.traces += n
+
+
+def replay_history(T, case):
+    from mc.explore import Result
+    h = case["history"]
+    ctx = Result()
+    got, want = history_sequence(T, h["cls"], h["opts"], h["kinds"], h["X"], h["Y"], h["name"], h["f1"], h["f2"],
+                                 h["route"], h["other"], h["censor"])
+    if got != want:
+        ctx.violation(case.get("key", "history"), case, "history replay: f2 on the used object differs from a fresh object")
+    return [v for lst in ctx.violations.values() for v in lst]
